@@ -1,11 +1,26 @@
-//! C19 machinery: persist → crash → restart in a different environment → restore.
+//! C19 — persist → crash → restart in a different environment → restore.
+//!
+//! Two simulated processes A and B (independent hash seeds, pool, clock) are
+//! connected only by a `SimFile`.  A builds the value through the public API,
+//! observes it, writes it with bincode (the deciding lossless format) and JSON
+//! (second format) through the storage seam, and exits.  B restores and must be
+//! indistinguishable from the value A kept: `==` where defined, same
+//! fingerprint (learned quantities, predictions, check() verdict, refit).
+//! Triple comparison: `orig@A`, `orig@B`, `restored@B`; C19 is violated iff
+//! `restored@B != orig@B`; `orig@A != orig@B` is environment dependence (C20).
 
-use crate::env::{run_sim_once, Env};
+use crate::driver::{run_in_fresh_process, run_jobs, Body, Job, JobKind};
+use crate::env::{run_sim_once, Context, Env};
 use crate::fp::Fingerprint;
-use crate::scen::{C19Cfg, C19Outcome, P};
+use crate::prng::{mix3, Prng};
+use crate::report::*;
+use crate::scen::{C19Cfg, C19Outcome, Size, P};
 use crate::simfile::SimFile;
 use serde::de::DeserializeOwned;
 use serde::Serialize;
+use serde_json::json;
+use std::collections::{BTreeMap, BTreeSet, HashSet};
+use std::panic::{catch_unwind, AssertUnwindSafe};
 
 fn fp_of<T>(v: &T, p: &P, fp: fn(&T, &P, &mut Fingerprint)) -> Fingerprint {
     let mut f = Fingerprint::new();
@@ -13,13 +28,7 @@ fn fp_of<T>(v: &T, p: &P, fp: fn(&T, &P, &mut Fingerprint)) -> Fingerprint {
     f
 }
 
-pub fn round_trip<T>(
-    p: &P,
-    cfg: &C19Cfg,
-    build: fn(&P) -> T,
-    fp: fn(&T, &P, &mut Fingerprint),
-    eq: Option<fn(&T, &T) -> bool>,
-) -> C19Outcome
+pub fn round_trip<T>(p: &P, cfg: &C19Cfg, build: fn(&P) -> T, fp: fn(&T, &P, &mut Fingerprint), eq: Option<fn(&T, &T) -> bool>) -> C19Outcome
 where
     T: Serialize + DeserializeOwned + Send + 'static,
 {
@@ -38,7 +47,7 @@ where
     let (orig, fa, mut file, w, json) = match a {
         Ok(t) => t,
         Err(panic) => {
-            out.codec_error = Some(format!("process A panicked: {panic}"));
+            out.scenario_panic = Some(format!("process A panicked: {panic}"));
             return out;
         }
     };
@@ -51,31 +60,57 @@ where
     out.storage = file.stats.clone();
     // ---- simulated process B (different hash seed, pool, clock): restore, observe
     let b = run_sim_once(cfg.env_b, move || {
+        let mut probes: BTreeMap<String, u64> = BTreeMap::new();
         file.rewind();
         let restored: Result<T, String> = bincode::deserialize_from(&mut file).map_err(|e| e.to_string());
-        let fb_orig = fp_of(&orig, &p, fp);
         let stats = file.stats.clone();
+        let fb_orig = fp_of(&orig, &p, fp);
+        // out-of-contract probes on damaged files: the statement promises nothing, outcomes are counted
+        let mut r = Prng::new(storage_seed ^ 0x7042);
+        if file.data.len() > 1 {
+            let cut = r.below(file.data.len() as u64 - 1) as usize;
+            let torn = catch_unwind(AssertUnwindSafe(|| bincode::deserialize::<T>(&file.data[..cut]).is_ok()));
+            *probes.entry(match torn {
+                Ok(true) => "torn_file_accepted",
+                Ok(false) => "torn_file_rejected",
+                Err(_) => "torn_file_panicked",
+            }.to_string()).or_default() += 1;
+            let mut flipped = file.data.clone();
+            let at = r.below(flipped.len() as u64) as usize;
+            flipped[at] ^= 1 << r.below(8);
+            // bound allocation on corrupted length prefixes
+            use bincode::Options;
+            let opts = bincode::DefaultOptions::new().with_fixint_encoding().allow_trailing_bytes().with_limit(16 << 20);
+            let fl = catch_unwind(AssertUnwindSafe(|| opts.deserialize::<T>(&flipped).is_ok()));
+            *probes.entry(match fl {
+                Ok(true) => "bit_flip_accepted",
+                Ok(false) => "bit_flip_rejected",
+                Err(_) => "bit_flip_panicked",
+            }.to_string()).or_default() += 1;
+        }
         match restored {
-            Err(e) => (fb_orig, Err(e), None, None, stats),
+            Err(e) => (fb_orig, Err(e), None, None, stats, probes),
             Ok(rest) => {
-                let fb_rest = fp_of(&rest, &p, fp);
-                let eqr = eq.map(|f| f(&orig, &rest));
+                // a panic while using the RESTORED value is a finding, not a harness error
+                let fb_rest = catch_unwind(AssertUnwindSafe(|| fp_of(&rest, &p, fp))).map_err(|_| "restored value panicked when used".to_string());
+                let eqr = eq.map(|f| catch_unwind(AssertUnwindSafe(|| f(&orig, &rest))).unwrap_or(false));
                 let js = match &json {
                     Ok(s) => match serde_json::from_str::<T>(s) {
-                        Ok(jv) => Ok(fp_of(&jv, &p, fp)),
+                        Ok(jv) => catch_unwind(AssertUnwindSafe(|| fp_of(&jv, &p, fp))).map_err(|_| "json-restored value panicked when used".to_string()),
                         Err(e) => Err(format!("json deserialize: {e}")),
                     },
                     Err(e) => Err(format!("json serialize: {e}")),
                 };
-                (fb_orig, Ok(fb_rest), eqr, Some(js), stats)
+                (fb_orig, Ok(fb_rest), eqr, Some(js), stats, probes)
             }
         }
     });
     match b {
         Err(panic) => {
-            out.codec_error = Some(format!("process B panicked: {panic}"));
+            out.scenario_panic = Some(format!("process B panicked outside the restored value: {panic}"));
         }
-        Ok((fb_orig, rest, eqr, js, stats)) => {
+        Ok((fb_orig, rest, eqr, js, stats, probes)) => {
+            out.probes = probes;
             out.storage.reads = stats.reads;
             out.storage.short_reads = stats.short_reads;
             out.storage.read_interrupts = stats.read_interrupts;
@@ -85,7 +120,8 @@ where
             }
             match rest {
                 Err(e) => out.codec_error = Some(format!("deserialize: {e}")),
-                Ok(fb_rest) => {
+                Ok(Err(p)) => out.restored_differs = Some(("<use of restored value>".into(), "value".into(), p)),
+                Ok(Ok(fb_rest)) => {
                     out.restored_differs = fb_orig.first_diff(&fb_rest);
                     if let Some(e) = eqr {
                         out.eq_checked = true;
@@ -103,7 +139,352 @@ where
     out
 }
 
-#[allow(dead_code)]
-pub fn env_pair_desc(a: &Env, b: &Env) -> String {
-    format!("A[{}] -> B[{}]", a.describe(), b.describe())
+// ---------------------------------------------------------------------------
+// registry cross-check against the source tree
+// ---------------------------------------------------------------------------
+
+/// serde-deriving types that no public API can produce (reviewed by hand); they
+/// are still exercised when they sit inside a reachable type
+pub const UNREACHABLE: &[&str] = &[];
+
+pub fn repo_root() -> std::path::PathBuf {
+    std::env::var_os("LINFA_REPO").map(Into::into).unwrap_or_else(|| "/repo".into())
+}
+
+/// `(type name, is_pub, file)` for every `derive(Serialize, Deserialize)` site
+pub fn scan_serde_types() -> Vec<(String, bool, String)> {
+    fn walk(dir: &std::path::Path, out: &mut Vec<std::path::PathBuf>) {
+        if let Ok(rd) = std::fs::read_dir(dir) {
+            let mut ents: Vec<_> = rd.flatten().map(|e| e.path()).collect();
+            ents.sort();
+            for p in ents {
+                if p.is_dir() {
+                    if p.file_name().map(|n| n == "target" || n == "benches" || n == "examples" || n == "tests").unwrap_or(false) {
+                        continue;
+                    }
+                    walk(&p, out);
+                } else if p.extension().map(|e| e == "rs").unwrap_or(false) {
+                    out.push(p);
+                }
+            }
+        }
+    }
+    let root = repo_root();
+    let mut files = Vec::new();
+    walk(&root.join("src"), &mut files);
+    if let Ok(rd) = std::fs::read_dir(root.join("algorithms")) {
+        let mut ds: Vec<_> = rd.flatten().map(|e| e.path()).collect();
+        ds.sort();
+        for d in ds {
+            walk(&d.join("src"), &mut files);
+        }
+    }
+    let mut found = Vec::new();
+    for f in files {
+        let text = match std::fs::read_to_string(&f) {
+            Ok(t) => t,
+            Err(_) => continue,
+        };
+        let lines: Vec<&str> = text.lines().collect();
+        for (i, l) in lines.iter().enumerate() {
+            if !(l.contains("derive(") && l.contains("Serialize") && l.contains("Deserialize")) || l.trim_start().starts_with("//") {
+                continue;
+            }
+            // the item follows within the next lines (attributes / doc comments between)
+            for l2 in lines.iter().skip(i + 1).take(220) {
+                let t = l2.trim_start();
+                let (is_pub, rest) = if let Some(r) = t.strip_prefix("pub(crate) ") {
+                    (false, r)
+                } else if let Some(r) = t.strip_prefix("pub ") {
+                    (true, r)
+                } else {
+                    (false, t)
+                };
+                let rest = rest.strip_prefix("struct ").or_else(|| rest.strip_prefix("enum "));
+                if let Some(r) = rest {
+                    let name: String = r.chars().take_while(|c| c.is_alphanumeric() || *c == '_' || *c == '[' || *c == '<' || *c == ' ' || *c == '$' || *c == '>' || *c == ']').collect();
+                    let name = name.trim().to_string();
+                    let rel = f.strip_prefix(&root).unwrap_or(&f).display().to_string();
+                    if name.starts_with("[<Pls") {
+                        for n in ["PlsRegression", "PlsCanonical", "PlsCca"] {
+                            found.push((n.to_string(), true, rel.clone()));
+                        }
+                    } else {
+                        let name: String = name.chars().take_while(|c| c.is_alphanumeric() || *c == '_').collect();
+                        found.push((name, is_pub, rel));
+                    }
+                    break;
+                }
+            }
+        }
+    }
+    found
+}
+
+// ---------------------------------------------------------------------------
+// the check
+// ---------------------------------------------------------------------------
+fn env_for(r: &mut Prng, hostile: bool) -> Env {
+    if !hostile {
+        return Env::reference();
+    }
+    Env {
+        threads: *r.pick(&[1usize, 2, 3, 4, 8]),
+        policy: r.pick(&["sequential", "eager-steal", "chaos", "random:0.3"]).to_string(),
+        sched_seed: r.next_u64() >> 20,
+        entropy_seed: 1 + (r.next_u64() >> 20),
+        clock_seed: r.next_u64() >> 20,
+        context: *r.pick(&[Context::External, Context::InWorker]),
+        replay: None,
+    }
+}
+
+fn failed(o: &C19Outcome) -> Option<String> {
+    if let Some((f, a, b)) = &o.restored_differs {
+        return Some(format!("restored value differs from the original at `{f}`: original {a}, restored {b}"));
+    }
+    if o.eq_failed {
+        return Some("restored value does not compare equal (==) to the original".into());
+    }
+    if let Some(e) = &o.codec_error {
+        return Some(format!("an intact file does not round-trip: {e}"));
+    }
+    None
+}
+
+fn c19_job(entry: &str, p: P, a: &Env, b: &Env, storage_seed: u64) -> Job {
+    Job { id: 0, kind: JobKind::C19 { entry: entry.to_string(), p, env_a: a.clone(), env_b: b.clone(), storage_seed } }
+}
+
+fn outcome_of(r: &crate::driver::JobResult) -> C19Outcome {
+    match &r.body {
+        Body::C19 { out } => out.clone(),
+        _ => harness_error("wrong result kind"),
+    }
+}
+
+pub fn check(tier: &str, seed: u64, only: Option<&str>) -> i32 {
+    let t0 = crate::seams::real_now_s();
+    if crate::selftest::run() != 0 {
+        harness_error("seam self-test failed");
+    }
+    let reg = crate::scenarios::registry();
+    let thorough = tier == "thorough";
+    // ---- registry vs source tree
+    let scanned = scan_serde_types();
+    if scanned.len() < 20 {
+        harness_error(&format!("found only {} serde derive sites under {} — wrong repository path?", scanned.len(), repo_root().display()));
+    }
+    let covered: BTreeSet<&str> = reg.c19.iter().flat_map(|e| e.types.iter().copied()).chain(UNREACHABLE.iter().copied()).collect();
+    let pub_types: BTreeSet<String> = scanned.iter().filter(|t| t.1).map(|t| t.0.clone()).collect();
+    let private_types: BTreeSet<String> = scanned.iter().filter(|t| !t.1).map(|t| t.0.clone()).collect();
+    let missing: Vec<&String> = pub_types.iter().filter(|t| !covered.contains(t.as_str())).collect();
+    if !missing.is_empty() && only.is_none() {
+        harness_error(&format!(
+            "types deriving Serialize/Deserialize in the source tree without a C19 registry entry: {missing:?} (add a model entry in sim/harness/src/scenarios or list it in c19::UNREACHABLE with the reason)"
+        ));
+    }
+    let stale: Vec<&&str> = covered.iter().filter(|t| !pub_types.contains(**t) && !private_types.contains(**t)).collect();
+    // ---- plan
+    let instances = if thorough { 12 } else { 2 };
+    let pairs = if thorough { 6 } else { 2 };
+    let mut jobs = Vec::new();
+    let mut meta = Vec::new();
+    for (ei, e) in reg.c19.iter().enumerate() {
+        if let Some(pfx) = only {
+            if !e.name.starts_with(pfx) {
+                continue;
+            }
+        }
+        for inst in 0..instances {
+            let p = P { seed: mix3(seed, crate::fp::fnv(e.name.as_bytes()), inst as u64) >> 20, size: if inst % 3 == 2 { Size::M } else { Size::S } };
+            for pi in 0..pairs {
+                let mut r = Prng::new(mix3(seed ^ 0xC19, ei as u64, (inst * 100 + pi) as u64));
+                // pair 0: A reference, B hostile; others: both hostile
+                let env_a = env_for(&mut r, pi > 0);
+                let env_b = env_for(&mut r, true);
+                for chunking in 0..2u64 {
+                    let storage_seed = 1 + (r.next_u64() >> 20) + chunking;
+                    meta.push(ei);
+                    jobs.push(c19_job(&e.name, p, &env_a, &env_b, storage_seed));
+                }
+            }
+        }
+    }
+    let mut order: Vec<usize> = (0..jobs.len()).collect();
+    Prng::new(seed ^ 0x19).shuffle(&mut order);
+    let jobs: Vec<Job> = order.iter().enumerate().map(|(i, &o)| Job { id: i, kind: jobs[o].kind.clone() }).collect();
+    let meta: Vec<usize> = order.iter().map(|&o| meta[o]).collect();
+    let results = run_jobs(&jobs, crate::driver::host_workers());
+
+    let mut st = crate::simfile::StorageStats::default();
+    let mut probes: BTreeMap<String, u64> = BTreeMap::new();
+    let mut distinct: HashSet<u64> = HashSet::new();
+    let (mut eq_checked, mut json_exact, mut json_inexact, mut json_unsupported, mut env_dep, mut bytes) = (0u64, 0u64, 0u64, 0u64, 0u64, 0u64);
+    let mut env_dep_entries: BTreeSet<String> = BTreeSet::new();
+    let mut json_inexact_entries: BTreeSet<String> = BTreeSet::new();
+    let mut failing: Vec<(usize, String)> = Vec::new();
+    let mut by_crate: BTreeMap<String, u64> = BTreeMap::new();
+    for (i, r) in results.iter().enumerate() {
+        let o = outcome_of(r);
+        let e = &reg.c19[meta[i]];
+        if let Some(p) = &o.scenario_panic {
+            harness_error(&format!("C19 entry {} is broken: {p}", e.name));
+        }
+        *by_crate.entry(e.krate.to_string()).or_default() += 1;
+        st.writes += o.storage.writes;
+        st.short_writes += o.storage.short_writes;
+        st.write_interrupts += o.storage.write_interrupts;
+        st.reads += o.storage.reads;
+        st.short_reads += o.storage.short_reads;
+        st.read_interrupts += o.storage.read_interrupts;
+        st.one_byte_transfers += o.storage.one_byte_transfers;
+        for (k, v) in &o.probes {
+            *probes.entry(k.clone()).or_default() += v;
+        }
+        eq_checked += o.eq_checked as u64;
+        bytes += o.bytes as u64;
+        match o.json_exact {
+            Some(true) => json_exact += 1,
+            Some(false) => {
+                json_inexact += 1;
+                json_inexact_entries.insert(e.name.clone());
+            }
+            None => json_unsupported += 1,
+        }
+        if o.env_dependent.is_some() {
+            env_dep += 1;
+            env_dep_entries.insert(e.name.clone());
+        }
+        // non-trivial: the two processes really differ (hash seeds) or a storage fault fired
+        let (ea, eb) = match &jobs[i].kind {
+            JobKind::C19 { env_a, env_b, .. } => (env_a, env_b),
+            _ => unreachable!(),
+        };
+        if ea.entropy_seed != eb.entropy_seed || o.storage.short_writes + o.storage.short_reads + o.storage.write_interrupts + o.storage.read_interrupts > 0 {
+            distinct.insert(crate::fp::fnv(serde_json::to_string(&jobs[i].kind).unwrap().as_bytes()));
+        }
+        if let Some(why) = failed(&o) {
+            failing.push((i, why));
+        }
+    }
+    // ---- report: one minimised replay per entry
+    let known = known_findings();
+    let mut reported = 0;
+    let mut seen_entries: BTreeSet<String> = BTreeSet::new();
+    let mut known_hits = Vec::new();
+    for (i, why) in &failing {
+        let e = &reg.c19[meta[*i]];
+        if !seen_entries.insert(e.name.clone()) || seen_entries.len() > 30 {
+            continue;
+        }
+        let (p, env_a, env_b, storage_seed) = match &jobs[*i].kind {
+            JobKind::C19 { p, env_a, env_b, storage_seed, .. } => (*p, env_a.clone(), env_b.clone(), *storage_seed),
+            _ => unreachable!(),
+        };
+        // minimise in fresh processes: benign storage, then equal environments, then smallest data
+        let mut cur = (p, env_a, env_b, storage_seed);
+        let mut msg = why.clone();
+        let try_it = |c: &(P, Env, Env, u64)| -> Option<String> { failed(&outcome_of(&run_in_fresh_process(&[c19_job(&e.name, c.0, &c.1, &c.2, c.3)])[0])) };
+        match try_it(&cur) {
+            Some(m) => msg = m,
+            None => {
+                eprintln!("HARNESS ERROR: C19 failure of {} did not reproduce in a fresh process: {why}", e.name);
+                return 2;
+            }
+        }
+        let cands: Vec<Box<dyn Fn(&(P, Env, Env, u64)) -> (P, Env, Env, u64)>> = vec![
+            Box::new(|c| (c.0, c.1.clone(), c.2.clone(), 0)),
+            Box::new(|c| (c.0, Env::reference(), c.2.clone(), c.3)),
+            Box::new(|c| (c.0, c.1.clone(), c.1.clone(), c.3)),
+            Box::new(|c| (P { seed: c.0.seed, size: Size::S }, c.1.clone(), c.2.clone(), c.3)),
+        ];
+        for cand in &cands {
+            let c2 = cand(&cur);
+            if let Some(m) = try_it(&c2) {
+                cur = c2;
+                msg = m;
+            }
+        }
+        let field = msg.split('`').nth(1).unwrap_or("").trim_end_matches(|c: char| c.is_ascii_digit()).to_string();
+        let identity = format!("{}|{}", e.name, field);
+        if let Some(k) = match_known(&known, "C19", &identity) {
+            known_hits.push(identity.clone());
+            println!("KNOWN-FINDING: property=C19 {} [{identity}]", k.what);
+            continue;
+        }
+        reported += 1;
+        report_violation(
+            "C19",
+            &format!("{seed}-{}", e.name),
+            &json!({"property": "C19", "seed": seed, "identity": identity, "entry": e.name, "types": e.types, "p": cur.0, "env_a": cur.1, "env_b": cur.2, "storage_seed": cur.3, "violation": msg,
+                "needs_environment_change": cur.1 != cur.2, "needs_storage_faults": cur.3 != 0}),
+        );
+        println!("  C19: {} ({:?}): {msg}", e.name, e.types);
+    }
+    let wall = crate::seams::real_now_s() - t0;
+    let samples: Vec<_> = jobs.iter().take(3).map(|j| serde_json::to_value(&j.kind).unwrap()).collect();
+    write_evidence(&Evidence {
+        property_id: "C19",
+        tier: tier.to_string(),
+        seed,
+        level: "exploration",
+        coverage: json!({
+            "evaluations": jobs.len(),
+            "distinct_nontrivial": distinct.len(),
+            "rule": "one evaluation = one persist -> restart -> restore round trip of one registry entry (value built through the public API from a data seed) between two simulated processes, through the storage seam, in bincode and JSON. Non-trivial: the two processes have different hash/entropy seeds, or at least one short transfer / interrupted I/O call fired; distinct = distinct (entry, data seed, size, environment pair, storage seed) among those, counted with a hash set",
+            "samples": samples,
+            "registry_entries": reg.c19.len(),
+            "entries_run": meta.iter().collect::<BTreeSet<_>>().len(),
+            "serde_derive_sites_in_tree": scanned.len(),
+            "public_serde_types_in_tree": pub_types.len(),
+            "public_serde_types_covered": pub_types.iter().filter(|t| covered.contains(t.as_str())).count(),
+            "public_serde_types_without_entry": missing,
+            "private_serde_types_in_tree_(covered_through_their_containers)": private_types,
+            "registry_names_not_found_in_tree": stale,
+            "round_trips_by_crate": by_crate,
+            "storage_faults_fired": {"writes": st.writes, "short_writes": st.short_writes, "write_interrupts": st.write_interrupts, "reads": st.reads, "short_reads": st.short_reads, "read_interrupts": st.read_interrupts, "one_byte_transfers": st.one_byte_transfers},
+            "bytes_persisted": bytes,
+            "partial_eq_checked": eq_checked,
+            "json_second_format": {"exact": json_exact, "not_exact": json_inexact, "not_representable_or_failed": json_unsupported, "entries_not_exact": json_inexact_entries, "note": "informational: the statement asks for JSON only where exact"},
+            "environment_dependent_originals_(C20_subject)": {"round_trips": env_dep, "entries": env_dep_entries},
+            "out_of_contract_probes": probes,
+            "violating_round_trips": failing.len(),
+            "known_findings_matched": known_hits,
+            "runs_per_hour": (jobs.len() as f64 / wall.max(1e-9) * 3600.0) as u64,
+            "real_components": ["every linfa crate built with its `serde` feature", "serde derive output", "bincode 1.3", "serde_json (float_roundtrip)"],
+            "simulated_components": ["the file (short writes/reads down to one byte, EINTR)", "process exit and restart into another environment (hash seeds, pool, clock)"],
+        }),
+        assumptions: vec![
+            "bincode is the deciding lossless format; JSON results are informational".into(),
+            "torn and bit-flipped files are outside the statement: outcomes are counted, never reported".into(),
+        ],
+        wall_s: wall,
+        violations: reported,
+    });
+    println!("C19 {tier}: {} round trips over {} entries ({} public serde types, {} covered), {} distinct non-trivial, {} failing, {reported} reported, {wall:.1}s", jobs.len(), reg.c19.len(), pub_types.len(), pub_types.iter().filter(|t| covered.contains(t.as_str())).count(), distinct.len(), failing.len());
+    if reported > 0 {
+        1
+    } else {
+        0
+    }
+}
+
+pub fn replay(v: &serde_json::Value) -> i32 {
+    let entry = v["entry"].as_str().unwrap_or_else(|| harness_error("replay: no entry")).to_string();
+    let p: P = serde_json::from_value(v["p"].clone()).unwrap_or_else(|e| harness_error(&format!("replay p: {e}")));
+    let a: Env = serde_json::from_value(v["env_a"].clone()).unwrap_or_else(|e| harness_error(&format!("replay env_a: {e}")));
+    let b: Env = serde_json::from_value(v["env_b"].clone()).unwrap_or_else(|e| harness_error(&format!("replay env_b: {e}")));
+    let s = v["storage_seed"].as_u64().unwrap_or(0);
+    let o = outcome_of(&run_in_fresh_process(&[c19_job(&entry, p, &a, &b, s)])[0]);
+    match failed(&o) {
+        Some(m) => {
+            println!("C19 replay: {entry}: {m}");
+            1
+        }
+        None => {
+            println!("C19 replay: {entry} round-trips on this tree");
+            0
+        }
+    }
 }
